@@ -56,6 +56,7 @@ def genMixed (pipe : String) (n : Nat) (malformedPct : Nat := 0) : G (List Strin
     let proto ← below 10
     -- the datagram and, for well-formed ones, the number of flow records it carries (specification side)
     let willMutate := (← below 100) < malformedPct
+    let mut tnf := false
     let (d, nflows) ← if proto < 6 then do
         let version ← pick [9, 10]
         let dom ← pick domains
@@ -65,7 +66,21 @@ def genMixed (pipe : String) (n : Nat) (malformedPct : Nat := 0) : G (List Strin
         -- a mutated datagram may or may not get its templates learned: forget the scope, so that later
         -- messages re-announce what they use
         known := (sc, if willMutate then [] else kn') :: known.filter (fun x => x.1 != sc)
-        pure (Spec.Netflow.encode m, Spec.Netflow.flowRecords m)
+        -- now and then one to three data sets of templates nobody announced sit among the others: the datagram reports
+        -- "template not found" (once, however many there are), the records of the other sets are delivered
+        let nstray ← if !willMutate ∧ (← chance 1 6) then range 1 3 else pure 0
+        let mut sets := m.sets
+        for j in [0:nstray] do
+          match ((List.range 40).map (· + 60000 + 40 * j)).find? (fun t => (kn'.lookup t).isNone) with
+          | some t =>
+            let s := Spec.Netflow.SSet.data t [⟨1, 4, none⟩] [[⟨← bytesOf 4, false⟩]] 0
+            let pos ← below (sets.length + 1)
+            sets := sets.take pos ++ [s] ++ sets.drop pos
+            tnf := true
+          | none => pure ()
+        let m1 := { m with sets := sets }
+        let m2 := { m1 with count := max (Spec.Netflow.totalRecords m1) sets.length }
+        pure (Spec.Netflow.encode m2, Spec.Netflow.flowRecords m)
       else if proto < 8 ∨ pipe = "nf" then do
         -- mostly small; now and then the largest datagrams the format allows (30 records = 1464 bytes)
         let k ← if (← chance 1 8) then pick [29, 30, 30] else range 0 8
@@ -90,7 +105,7 @@ def genMixed (pipe : String) (n : Nat) (malformedPct : Nat := 0) : G (List Strin
       -- truncated / inflated datagrams never yield more messages than the intact one carries records
       out := out ++ [pktLine pipe e clock d'] ++ (if d'.length < d.length ∧ d.take d'.length == d' then ["expect @maxcount " ++ toString nflows] else [])
     else
-      out := out ++ [pktLine pipe e clock d, "expect @res ok", "expect @count " ++ toString nflows]
+      out := out ++ [pktLine pipe e clock d, (if tnf then "expect @res err:template-not-found" else "expect @res ok"), "expect @count " ++ toString nflows]
   pure out
 
 end Goflow.Gen.History
